@@ -115,8 +115,22 @@ def main(ctx, replay=None):
                     calc = run(dset.write(wd.sub(tag)))
                 except Exception as ex:
                     continue                                  # completion is C12/C05's business
+                wrote = False
+                if n % 2 == 1:
+                    # the relation between the two bases also holds after the results have been written out (twice)
+                    import os
+                    here = os.getcwd()
+                    os.chdir(wd.sub(tag + "_out"))
+                    try:
+                        calc.write_output()
+                        calc.write_output()
+                        wrote = True
+                    except Exception:
+                        pass                                  # writing is C15's business
+                    finally:
+                        os.chdir(here)
                 r = records_of(calc, tag)
-                ctx.count({"run": tag, "nv": dset.nv, "system": dset.system, "records": len(r), "pgrid": [dset.settings["P_MIN"], dset.settings["DELTA_P"]]})
+                ctx.count({"run": tag, "nv": dset.nv, "system": dset.system, "records": len(r), "pgrid": [dset.settings["P_MIN"], dset.settings["DELTA_P"]], "after_write_output": wrote})
                 recs += r
         shapes = [r for r in recs if r["kind"] == "shape"]
         for r in shapes[:3]:
